@@ -281,4 +281,24 @@ CHECKS["C11"] = {
     "note": TB,
 }
 
+CHECKS["C12"] = {
+    "technique": "runtime monitoring: the bundled setup functions are "
+                 "executed twice per (instance, seed, budget) as real "
+                 "moptipy runs with log files; an own log reader and the "
+                 "domain oracles re-evaluate the logged solution; the two "
+                 "histories must be identical; bin-packing logs are parsed "
+                 "back by the package",
+    "text": "For bin packing (rls/fea x 7 objectives x 2 encodings), TSP "
+            "(EA/FEA/RLS), the TTP and QAP example searches, instance "
+            "generation and controller synthesis, each run pair is checked "
+            "for: FEs within budget, logged and live final solution feasible "
+            "(independent oracle), logged best f = independent "
+            "re-evaluation, bitwise equal results of the two executions, "
+            "and Packing.from_log / from_single_log agreeing with the "
+            "oracle values and live bounds. The dependency crash of "
+            "BiPop-CMA-ES restart logging is a KNOWN-FINDING by mechanism. "
+            "Held on the runs executed.",
+    "note": TB,
+}
+
 NOT_APPLICABLE = {}
